@@ -6,7 +6,10 @@ pub const NAME_POOL: &[&str] = &[
     "Vcs-Git", "Files", "Name+x",
 ];
 
-pub const NON_ASCII: &[&str] = &["é", "ĳ", "ß", "→", "€", "日", "本", "😀", "𝔘", "\u{a0}", "\u{2028}", "ü", "Ж", "\u{feff}", "\u{200b}", "\u{3000}", "\u{212a}", "\u{130}", "\u{1e9e}"];
+pub const NON_ASCII: &[&str] = &["é", "ĳ", "ß", "→", "€", "日", "本", "😀", "𝔘", "\u{a0}", "\u{2028}", "ü", "Ж", "\u{feff}", "\u{200b}", "\u{3000}", "\u{212a}", "\u{130}", "\u{1e9e}",
+    // code points whose low byte is an ASCII byte the lexer cares about (LF, CR, tab, space, ':', '#', '-'): a
+    // truncating cast to u8 turns them into that byte
+    "\u{10a}", "\u{10d}", "\u{109}", "\u{120}", "\u{13a}", "\u{123}", "\u{12d}", "\u{a0a}", "\u{2020}", "\u{203a}"];
 const CONTROL: &[&str] = &["\u{0}", "\u{1}", "\u{7f}", "\u{b}", "\u{c}", "\u{1b}", "\u{85}"];
 
 #[derive(Clone, Debug)]
@@ -92,6 +95,17 @@ pub fn value_line(rng: &mut Rng, non_ascii: bool, continuation: bool) -> String 
     // one line in 60 is long enough to pass any wrapping / buffering threshold
     let huge = rng.chance(1, 60);
     let len = if huge { 90 + rng.below(1500) } else { 1 + rng.below(if long { 40 } else { 9 }) };
+    // one line in 4000 passes the 16-bit length mark
+    if rng.chance(1, 4000) {
+        let unit = if non_ascii && rng.chance(1, 3) { "xé y" } else { "ab c" };
+        let mut s = String::from("g");
+        let target = 65_530 + rng.below(5000);
+        while s.len() < target {
+            s.push_str(unit);
+        }
+        s.push('z');
+        return s;
+    }
     let mut s = String::new();
     for i in 0..len {
         let piece: String = match rng.below(12) {
@@ -328,6 +342,8 @@ pub const HOSTILE: &[&str] = &[
     // characters whose lower/upper-case mapping has a different UTF-8 length (byte offsets computed on a
     // case-folded copy do not fit the original)
     "\u{212a}", "\u{130}", "\u{1e9e}", "\u{2126}", "\u{23a}", "\u{df}", "\u{149}", "\u{fb01}",
+    // low byte = LF, CR, tab, space, ':', '#', '-'
+    "\u{10a}", "\u{10d}", "\u{109}", "\u{120}", "\u{13a}", "\u{123}", "\u{12d}", "\u{200a}",
     // the rest of ASCII punctuation (quotes, escapes, wildcards)
     "\"", "'", "\\", "`", "%", "&", ";", "*", "?", "@", "^", "~", "+", "/", ".", "_",
 ];
@@ -356,9 +372,23 @@ fn biased_pos(rng: &mut Rng, s: &str) -> usize {
 
 /// Apply one storage/transport fault that keeps the text valid UTF-8. Returns the fault kind.
 pub fn text_fault(rng: &mut Rng, s: &mut String) -> &'static str {
-    let kind = rng.below(13);
+    let kind = rng.below(14);
     let lines: Vec<String> = s.split_inclusive('\n').map(|l| l.to_string()).collect();
     match kind {
+        13 if s.chars().any(|c| !c.is_whitespace()) => {
+            // one word lost, the blanks around it stay ("-b  [sub]", "a (>= ) b", "Field:  \n")
+            let chars: Vec<(usize, char)> = s.char_indices().collect();
+            let starts: Vec<usize> = (0..chars.len()).filter(|i| !chars[*i].1.is_whitespace() && (*i == 0 || chars[*i - 1].1.is_whitespace())).collect();
+            let st = starts[rng.below(starts.len())];
+            let mut en = st;
+            while en < chars.len() && !chars[en].1.is_whitespace() {
+                en += 1;
+            }
+            let b0 = chars[st].0;
+            let b1 = if en < chars.len() { chars[en].0 } else { s.len() };
+            s.replace_range(b0..b1, "");
+            "drop_word"
+        }
         12 if lines.iter().any(|l| l.contains(": ")) => {
             // a field value replaced by a number, from one digit to far beyond any machine integer
             let cands: Vec<usize> = (0..lines.len()).filter(|i| lines[*i].contains(": ")).collect();
